@@ -2,11 +2,13 @@
 
 package k8s
 
+// OPTIONAL shim (tag no_spec): the in-memory store behind an API-backed store, only to read the synchronised flow-control
+// spec from it. Everything else the harness reads goes through the store's own methods, which answer from that cache.
+
 import (
 	_interface "github.com/kubewharf/kubegateway/pkg/ratelimiter/store/interface"
 )
 
-// VerifC18Cache hands out the in-memory store an API-backed store answers from (read only use).
 func VerifC18Cache(s _interface.LimitStore) (_interface.LimitStore, bool) {
 	o, ok := s.(*objectStore)
 	if !ok {
